@@ -369,6 +369,10 @@ inductive Made where
   | ok (t : Task) (ports : Option Ranges)
   deriving Repr
 
+def Made.isPanic : Made → Bool
+  | .panic => true
+  | _ => false
+
 def makeTask (w : Wants) (ports : Option Ranges) : Made :=
   match drawDyn w.inbound ports with
   | .noPorts ports' => .early ports'
